@@ -1306,8 +1306,99 @@ fn c01_compaction_paused(dir: PathBuf) -> ScenFut<'static> {
     })
 }
 
+/// The signal that clears a write stall lands exactly at the yield point between the stalled
+/// writer's last look at the counts and its wait; nothing signals afterwards.
+fn c17_stall_signal_at_yield_point(dir: PathBuf) -> ScenFut<'static> {
+    Box::pin(async move {
+        let res = std::thread::spawn(move || -> Result<(), String> {
+            let rt = tokio::runtime::Builder::new_multi_thread().worker_threads(4).enable_all().build().map_err(|e| e.to_string())?;
+            rt.block_on(async move {
+                for what in ["flush", "close"] {
+                    let d = dir.join(what);
+                    let cfg = Cfg { memtable_stall: 2, ..base_cfg() };
+                    let t = std::sync::Arc::new(cfg.open(&d).map_err(|e| e.to_string())?);
+                    for i in 0..2 {
+                        put(&t, &[(format!("k{i}").as_bytes(), b"v")]).await?;
+                        t.verif_rotate().map_err(|e| e.to_string())?;
+                    }
+                    let ctl = crate::e3::ctl();
+                    ctl.reset();
+                    let tc = t.clone();
+                    let h = tokio::runtime::Handle::current();
+                    let fired = std::sync::Arc::new(std::sync::atomic::AtomicBool::new(false));
+                    let f2 = fired.clone();
+                    ctl.at_point_once(
+                        "stall.before_wait",
+                        std::sync::Arc::new(move || {
+                            let _g = h.enter();
+                            if what == "flush" {
+                                let _ = tc.verif_flush();
+                            } else {
+                                // shutdown signal: close() from another thread, completed before we go on
+                                let tc2 = tc.clone();
+                                let h2 = h.clone();
+                                let _ = std::thread::spawn(move || h2.block_on(async move { tc2.close().await.map_err(|e| e.to_string()) })).join();
+                            }
+                            f2.store(true, std::sync::atomic::Ordering::SeqCst);
+                        }),
+                    );
+                    let tw = t.clone();
+                    let writer = tokio::spawn(async move { put(&tw, &[(b"k2", b"v")]).await });
+                    // bounded progress, decided on logical state: the stall condition is gone (or
+                    // the store is shut down) and no thread of the process is runnable
+                    let mut done = false;
+                    let mut idle = 0;
+                    for _ in 0..1200 {
+                        tokio::time::sleep(std::time::Duration::from_millis(10)).await;
+                        if writer.is_finished() {
+                            done = true;
+                            break;
+                        }
+                        let (running, _) = crate::e3::thread_states();
+                        if fired.load(std::sync::atomic::Ordering::SeqCst) && running == 0 {
+                            idle += 1;
+                        } else {
+                            idle = 0;
+                        }
+                        if idle >= 300 {
+                            break;
+                        }
+                    }
+                    ctl.reset();
+                    let imm = t.verif_layout().map(|l| l.immutables).unwrap_or(99);
+                    if !done {
+                        writer.abort();
+                        return Err(format!(
+                            "2 immutable memtables = write stall; a third commit reaches stall.before_wait; at that instant {}; the commit never returns although {} (immutable memtables now: {}) and no thread was runnable for 3 s",
+                            if what == "flush" { "both memtables are flushed and the stall-cleared signal is sent" } else { "close() shuts the store down and signals the stalled writers" },
+                            if what == "flush" { "the stall condition is gone" } else { "the store is closed" },
+                            imm
+                        ));
+                    }
+                    let _ = writer.await;
+                    if what == "flush" {
+                        if let Ok(t) = std::sync::Arc::try_unwrap(t) {
+                            close(t).await;
+                        }
+                    }
+                }
+                Ok(())
+            })
+        })
+        .join()
+        .map_err(|_| "scenario thread panicked".to_string())?;
+        res
+    })
+}
+
 pub fn all() -> Vec<Scenario> {
     vec![
+        Scenario {
+            id: "C17-stall-signal-at-yield-point",
+            property: "C17",
+            title: "the stall-cleared (or shutdown) signal lands between a stalled writer's check and its wait",
+            run: c17_stall_signal_at_yield_point,
+        },
         Scenario {
             id: "C01-compaction-paused-reader-begins",
             property: "C01",
